@@ -15,6 +15,7 @@ LEVEL_TEXT = ("Static structural proof of necessary conditions: (R10.1) every in
               "validator's constructor; (R10.3) the temporal rules are registered as TEMPORAL_TAG_ERROR and reachable "
               "from BaseInput.validate. The transition semantics over histories, equal-onset merging and Delay "
               "shifting are NOT decided.")
+LEVEL_EXTRA = 'Added after the seeded evaluation: (R10.4) every Delay-shifted group is appended under an index computed afresh for that group; (R10.5) already-failed rows are skipped by original_index.'
 
 ROWS = [{"key": "TemporalErrors." + k, "code": "TEMPORAL_TAG_ERROR"} for k in (
     "OFFSET_BEFORE_ONSET", "INSET_BEFORE_ONSET", "ONSET_SAME_DEFS_ONE_ROW", "TEMPORAL_TAG_NO_TIME",
